@@ -22,46 +22,81 @@ import (
 )
 
 type zoneNode struct {
-	db     ethdb.Database
-	sl     *core.Slice
-	hc     *core.HeaderChain
-	eng    consensus.Engine
-	ghash  common.Hash
-	loc    common.Location
+	db      ethdb.Database
+	sl      *core.Slice
+	hc      *core.HeaderChain
+	eng     consensus.Engine
+	ghash   common.Hash
+	loc     common.Location
 	genesis *core.Genesis
+	opts    zoneOpts
+	// what the miner puts into the next header (all of it is the miner's free choice)
+	nextDt       uint64
+	nextData     []byte
+	nextCoinbase common.Address
+}
+
+// zoneOpts: the node configuration dimensions the chain-level properties quantify over
+type zoneOpts struct {
+	snapshots   bool                    // snapshot-backed state reads
+	index       bool                    // IndexAddressUtxos (address -> outpoints index)
+	allocs      []params.GenesisAccount // balances released at block 1 (state.AddLockedBalances)
+	genesisTime uint64
+	reopen      bool // the database already holds a chain: no genesis pending header
 }
 
 var chainCoinbase = common.HexToAddress("0x0012345678901234567890123456789012345678", common.Location{0, 0})
 
-func newZoneNode(db ethdb.Database) (*zoneNode, error) {
+// chainGenesisTime is fixed per process so that every node of a run shares the genesis block
+var chainGenesisTime = uint64(time.Now().Unix()) - 40_000_000
+
+func newZoneNode(db ethdb.Database, opts ...zoneOpts) (*zoneNode, error) {
+	var o zoneOpts
+	if len(opts) > 0 {
+		o = opts[0]
+	}
 	loc := common.Location{0, 0}
 	logger := log.Global
 	gen := core.DefaultLocalGenesisBlock("blake3", 0, nil)
+	gen.Difficulty = big.NewInt(3000)
+	gen.Timestamp = chainGenesisTime
+	if o.genesisTime != 0 {
+		gen.Timestamp = o.genesisTime
+	}
 	cfg0, ghash, err := core.SetupGenesisBlock(db, gen, 0, nil, loc, logger)
 	if err != nil {
 		return nil, fmt.Errorf("genesis: %w", err)
 	}
-	chainCfg := params.ChainConfig{ChainID: cfg0.ChainID, ConsensusEngine: cfg0.ConsensusEngine, Blake3Pow: cfg0.Blake3Pow, Progpow: cfg0.Progpow, Location: loc}
+	chainCfg := params.ChainConfig{ChainID: cfg0.ChainID, ConsensusEngine: cfg0.ConsensusEngine, Blake3Pow: cfg0.Blake3Pow, Progpow: cfg0.Progpow, Location: loc, IndexAddressUtxos: o.index}
 	chainCfg.DefaultGenesisHash = ghash
-	pow := params.PowConfig{PowMode: params.ModeNormal, DurationLimit: params.LocalDurationLimit, GasCeil: params.LocalGasCeil, MinDifficulty: big.NewInt(1000), NodeLocation: loc, WorkShareThreshold: 3, NumThreads: 1}
-	eng := []consensus.Engine{blake3pow.New(pow, nil, false, logger)}
+	pow := params.PowConfig{PowMode: params.ModeNormal, DurationLimit: params.LocalDurationLimit, GasCeil: params.LocalGasCeil, MinDifficulty: big.NewInt(1000), NodeLocation: loc, WorkShareThreshold: 3, NumThreads: 1, GenAllocs: o.allocs}
+	// slot 0 is the engine of headers without AuxPoW; slot Kawpow is only dereferenced by the address index
+	eng := make([]consensus.Engine, params.TotalPowEngines)
+	eng[0] = blake3pow.New(pow, nil, false, logger)
+	eng[types.Kawpow] = eng[0]
 	mcfg := &core.Config{QuaiCoinbase: chainCoinbase, QiCoinbase: chainCoinbase, GasCeil: params.LocalGasCeil, GasPrice: big.NewInt(1), Recommit: time.Hour, ExtraData: []byte("verif")}
 	tcfg := core.DefaultTxPoolConfig
 	tcfg.Journal = ""
 	var lim uint64
-	sl, err := core.NewSlice(db, mcfg, pow, &tcfg, &lim, &chainCfg, []common.Location{loc}, 0, nil, eng, &core.CacheConfig{TrieCleanLimit: 16, TrieDirtyLimit: 16, TrieTimeLimit: time.Minute, SnapshotLimit: 0}, vm.Config{}, gen, logger)
+	snapLimit := 0
+	if o.snapshots {
+		snapLimit = 16
+	}
+	sl, err := core.NewSlice(db, mcfg, pow, &tcfg, &lim, &chainCfg, []common.Location{loc}, 0, nil, eng, &core.CacheConfig{TrieCleanLimit: 16, TrieDirtyLimit: 16, TrieTimeLimit: time.Minute, SnapshotLimit: snapLimit}, vm.Config{}, gen, logger)
 	if err != nil {
 		return nil, fmt.Errorf("slice: %w", err)
 	}
-	n := &zoneNode{db: db, sl: sl, hc: sl.HeaderChain(), eng: eng[0], ghash: ghash, loc: loc, genesis: gen}
-	if err := sl.NewGenesisPendingHeader(types.EmptyWorkObject(common.ZONE_CTX), ghash, ghash); err != nil {
-		return nil, fmt.Errorf("genesis pending header: %w", err)
+	n := &zoneNode{db: db, sl: sl, hc: sl.HeaderChain(), eng: eng[0], ghash: ghash, loc: loc, genesis: gen, opts: o, nextDt: 1, nextCoinbase: chainCoinbase}
+	if !o.reopen {
+		if err := sl.NewGenesisPendingHeader(types.EmptyWorkObject(common.ZONE_CTX), ghash, ghash); err != nil {
+			return nil, fmt.Errorf("genesis pending header: %w", err)
+		}
 	}
 	return n, nil
 }
 
 // mine seals the pending header to its full target with the real engine's hash function.
-func (n *zoneNode) mine(ph *types.WorkObject) *types.WorkObject {
+func (n *zoneNode) mine(ph *types.WorkObject, wantOrder int) *types.WorkObject {
 	before := ph.WorkObjectHeader().SealHash()
 	defer func() {
 		if ph.WorkObjectHeader().SealHash() != before && os.Getenv("QVH_DEBUG") != "" {
@@ -70,6 +105,14 @@ func (n *zoneNode) mine(ph *types.WorkObject) *types.WorkObject {
 	}()
 	ph.WorkObjectHeader().SetLocation(n.loc)
 	ph.WorkObjectHeader().SetAuxPow(nil)
+	// the timestamp (>= parent's, not in the future) and the data field (lock byte, lockup contract, beneficiary)
+	// are the miner's choice; nothing executed in the block reads them
+	if parent := n.hc.GetHeaderByHash(ph.ParentHash(common.ZONE_CTX)); parent != nil {
+		ph.WorkObjectHeader().SetTime(parent.Time() + n.nextDt)
+	}
+	if n.nextData != nil {
+		ph.WorkObjectHeader().SetData(n.nextData)
+	}
 	if ph.WorkObjectHeader().PrimeTerminusNumber().Uint64() < params.KawPowForkBlock {
 		// before the KawPow fork these fields do not exist (the dom part of the pending header leaves them unset)
 		ph.WorkObjectHeader().SetShaDiffAndCount(types.NewPowShareDiffAndCount(nil, nil, nil))
@@ -83,35 +126,70 @@ func (n *zoneNode) mine(ph *types.WorkObject) *types.WorkObject {
 		ph.WorkObjectHeader().SetNonce(types.EncodeNonce(nonce))
 		h, _ := n.eng.ComputePowHash(ph.WorkObjectHeader())
 		if new(big.Int).SetBytes(h.Bytes()).Cmp(target) <= 0 {
-			return ph
+			// a zone-only node cannot extend a block that is also a region / prime block (that needs the
+			// dominant chains); a miner is free to skip such nonces
+			if _, order, err := n.hc.CalcOrder(ph); err == nil && order == wantOrder {
+				return ph
+			}
 		}
 	}
 }
 
 // nextBlock asks the real worker for a pending header on top of the current head, mines and constructs the block.
-func (n *zoneNode) nextBlock() (*types.WorkObject, error) {
-	zph, err := n.sl.GeneratePendingHeader(n.hc.CurrentHeader(), true)
+func (n *zoneNode) nextBlock(wantOrder int) (*types.WorkObject, error) {
+	head := n.hc.CurrentHeader()
+	zph, err := n.sl.GeneratePendingHeader(head, true)
 	if err != nil {
 		return nil, fmt.Errorf("pending header: %w", err)
+	}
+	if _, order, _ := n.hc.CalcOrder(head); order == common.REGION_CTX && !n.hc.IsGenesisHash(head.Hash()) {
+		// the head is a region block: the harness plays the region chain and derives the region part of the
+		// pending header the way the region's worker does (core/worker.go prepareWork with nodeCtx = REGION)
+		best := types.CopyWorkObject(n.sl.ReadBestPh())
+		rph := types.CopyWorkObject(best)
+		rph.SetParentHash(head.Hash(), common.REGION_CTX)
+		rph.SetNumber(new(big.Int).Add(head.Number(common.REGION_CTX), big.NewInt(1)), common.REGION_CTX)
+		rph.Header().SetParentEntropy(n.hc.TotalLogEntropy(head), common.REGION_CTX)
+		rph.Header().SetParentDeltaEntropy(n.hc.DeltaLogEntropy(head), common.REGION_CTX)
+		rph.Header().SetParentUncledDeltaEntropy(n.hc.UncledDeltaLogEntropy(head), common.REGION_CTX)
+		n.sl.MakeFullPendingHeader(best, rph, zph)
+		return n.finishBlock(wantOrder)
 	}
 	// the harness plays the coordinator: the prime / region parts of the pending header stay those of the last
 	// best pending header (no zone block made here is coincident with a dominant chain)
 	best := types.CopyWorkObject(n.sl.ReadBestPh())
 	n.sl.MakeFullPendingHeader(best, types.CopyWorkObject(best), zph)
-	ph, err := n.sl.GetPendingHeader(types.Progpow, chainCoinbase)
+	return n.finishBlock(wantOrder)
+}
+
+func (n *zoneNode) finishBlock(wantOrder int) (*types.WorkObject, error) {
+	ph, err := n.sl.GetPendingHeader(types.Progpow, n.nextCoinbase)
 	if err != nil {
 		return nil, fmt.Errorf("get pending header: %w", err)
 	}
-	sealed := n.mine(ph)
-	blk, err := n.sl.ConstructLocalMinedBlock(sealed)
-	if err != nil {
-		return nil, fmt.Errorf("construct: %w", err)
+	tm := time.Now()
+	sealed := n.mine(ph, wantOrder)
+	if os.Getenv("QVH_DEBUG") != "" {
+		fmt.Fprintln(os.Stderr, "mine took", time.Since(tm))
 	}
-	return blk, nil
+	// the sealed header together with the body the worker assembled for it (what ConstructLocalMinedBlock does
+	// for a header whose seal hash the worker has cached; here the miner also chose time and data)
+	return types.NewWorkObject(sealed.WorkObjectHeader(), sealed.Body(), nil), nil
 }
 
-func (n *zoneNode) appendBlock(blk *types.WorkObject) error {
+func (n *zoneNode) appendBlock(blk *types.WorkObject, inbound types.Transactions) error {
 	n.sl.WriteBlock(blk)
+	if _, order, err := n.hc.CalcOrder(blk); err == nil && order == common.REGION_CTX {
+		// a region block: the harness plays the region, which appends to the zone with the inbound ETXs it confirmed
+		t := n.hc.GetTerminiByHash(blk.ParentHash(common.ZONE_CTX))
+		if t == nil {
+			return fmt.Errorf("no termini for parent")
+		}
+		if _, err := n.sl.Append(blk, t.DomTerminus(n.loc), true, inbound); err != nil {
+			return err
+		}
+		return n.hc.SetCurrentHeader(blk)
+	}
 	// an ordinary zone block (not coincident with region / prime): appended by the zone itself
 	if _, err := n.sl.Append(blk, common.Hash{}, false, nil); err != nil {
 		return err
